@@ -31,7 +31,10 @@ DRIVER = os.path.join(VERIF, "apisim", "driver.cpp")
 
 def gen_script(w, rng, maxops=40):
     """A seeded API history over the program's input facts. Returns list of op tuples (strings)."""
-    facts = {n: list(rows) for n, rows in w.facts.items()}
+    aux = w.meta.get("aux_inputs", {})  # further fact files of relations with several .input directives
+    facts = {}
+    for n, rows in w.facts.items():
+        facts.setdefault(aux.get(n, n), []).extend(rows)
     allf = [(n, t) for n, rows in facts.items() for t in rows]
     rng.shuffle(allf)
     outs = list(w.meta.get("outputs", []))
@@ -60,8 +63,16 @@ def gen_script(w, rng, maxops=40):
     ins(first)
     ops.append(("run",))
     look(rng.randrange(2, 6))
-    choice = rng.randrange(10)
-    if choice >= 8 and rest:
+    choice = rng.randrange(12)
+    if choice >= 10:
+        # loadAll(): every .input directive of every relation is read from the fact directory, on top of what the instance holds
+        if choice == 11:
+            ops += [("purgein",), ("purgeout",), ("purgeinternal",)]
+            ops += [("loadall",), ("run",)]
+        else:
+            ops += [("purgeout",), ("purgeinternal",), ("loadall",), ("run",)]
+        look(rng.randrange(3, 7))
+    elif choice >= 8 and rest:
         # the file-based entry point first (runAll with I/O), then purge everything and continue through the API on the same
         # instance with other inputs: the later run() must neither load nor store anything
         ops += [("purgein",), ("purgeout",), ("purgeinternal",), ("runall",)]
@@ -125,7 +136,8 @@ class Model:
 
     def __init__(self, w, ref_fn):
         self.w, self.ref_fn = w, ref_fn
-        self.inputs = {n: set() for n in w.facts}
+        self.aux = w.meta.get("aux_inputs", {})
+        self.inputs = {n: set() for n in w.facts if n not in self.aux}
         self.rels = {}      # known contents of non-input relations (lists of CSV lines), None = unknown
         self.dirty = False  # non-input relations may hold tuples of an earlier run
         self.known = True
@@ -156,11 +168,15 @@ class Model:
         k = op[0]
         if k == "insert":
             self.inputs[op[1]].add(tuple(op[2:]))
+        elif k == "loadall":
+            for n, rows in self.w.facts.items():
+                self.inputs[self.aux.get(n, n)] |= set(tuple(t) for t in rows)
+            self._p_purgeout = self._p_purgeinternal = False
         elif k in ("run", "runall"):
             if k == "runall":
                 # file-based entry point: the program's own fact files are loaded on top of what the instance holds
                 for n, rows in self.w.facts.items():
-                    self.inputs[n] |= set(tuple(t) for t in rows)
+                    self.inputs[self.aux.get(n, n)] |= set(tuple(t) for t in rows)
             if self.dirty:
                 self.known = False  # results of a run on a dirty instance are not determined by the inputs alone
             else:
@@ -370,6 +386,8 @@ class ApiProgram:
                     o = ["printall", pa]
                 if o[0] == "runall":
                     o = ["runall", os.path.join(self.w.dir, "facts"), pa]
+                if o[0] == "loadall":
+                    o = ["loadall", os.path.join(self.w.dir, "facts")]
                 f.write("\t".join(o) + "\n")
         stats_path = os.path.join(d, "_sim.json")
         env = dict(os.environ)
